@@ -1,6 +1,74 @@
-"""Generated route: compile parsers emitted by the real compiler in scratch crates."""
-import os
+"""Generated route: build and run scratch cargo workspaces that contain parsers
+written by the real compiler plus checking code emitted by the harness."""
+import json, os, shutil, subprocess, time
 
 
 def setup(root, target, env, log):
     pass
+
+
+def ws_dir(ctx, name):
+    return os.path.join(ctx["target"], "scratch", "ws_" + name)
+
+
+def prepare_ws(ctx, name):
+    d = ws_dir(ctx, name)
+    shutil.rmtree(d, ignore_errors=True)
+    os.makedirs(d, exist_ok=True)
+    return d
+
+
+def build_ws(ctx, name, members, message_format_json=False, check_only=False, keep_going=False):
+    """Writes the workspace manifest and builds. Returns (returncode, output)."""
+    d = ws_dir(ctx, name)
+    with open(os.path.join(d, "Cargo.toml"), "w") as f:
+        f.write("[workspace]\nresolver = \"2\"\nmembers = [%s]\n\n[profile.dev]\ndebug = 0\nopt-level = 0\nincremental = false\n" % ", ".join('"%s"' % m for m in members))
+    shutil.copy("/repo/Cargo.lock", os.path.join(d, "Cargo.lock"))
+    env = dict(ctx["env"], CARGO_TARGET_DIR=os.path.join(ctx["target"], "gen", name))
+    cmd = ["cargo", "check" if check_only else "build", "--offline", "--workspace"]
+    if keep_going:
+        cmd.append("--keep-going")
+    if message_format_json:
+        cmd.append("--message-format=json")
+    else:
+        cmd.append("--quiet")
+    t = time.time()
+    r = subprocess.run(cmd, cwd=d, env=env, stdout=subprocess.PIPE, stderr=subprocess.PIPE, text=True)
+    ctx["log"]("[cargo %s ws_%s: %d members, %.1fs, rc=%d]" % ("check" if check_only else "build", name, len(members), time.time() - t, r.returncode))
+    return r.returncode, r.stdout, r.stderr
+
+
+def run_member(ctx, name, member, timeout=600):
+    exe = os.path.join(ctx["target"], "gen", name, "debug", member)
+    try:
+        r = subprocess.run([exe], stdout=subprocess.PIPE, stderr=subprocess.DEVNULL, text=True, timeout=timeout, errors="replace")
+    except subprocess.TimeoutExpired:
+        return None
+    mods = {}
+    cur = None
+    for line in r.stdout.split("\n"):
+        if line.startswith("@MODULE "):
+            cur = line.split()[1]
+            mods[cur] = {"lines": [], "ended": False}
+        elif line.startswith("@END "):
+            if cur:
+                mods[cur]["ended"] = True
+            cur = None
+        elif cur is not None:
+            mods[cur]["lines"].append(line)
+    return mods
+
+
+def members_with_modules(ctx, name, nshards):
+    out = []
+    for i in range(nshards):
+        mp = os.path.join(ws_dir(ctx, name), "s%d" % i, "meta.json")
+        if os.path.exists(mp):
+            meta = json.load(open(mp))
+            if meta["modules"]:
+                out.append(("s%d" % i, meta))
+    return out
+
+
+def cleanup_ws(ctx, name):
+    shutil.rmtree(ws_dir(ctx, name), ignore_errors=True)
